@@ -134,7 +134,7 @@ fn gap_lines(kind: usize, g: usize) -> Vec<String> {
     v
 }
 
-const AGG_STMTS: [&str; 13] = [
+const AGG_STMTS: [&str; 16] = [
     "SELECT DISTINCT COUNT(*) FROM t GROUP BY b HAVING b != 'a'",
     "SELECT DISTINCT COUNT(*), MAX(i) FROM t GROUP BY b HAVING COUNT(*) < 2",
     "SELECT DISTINCT MAX(i), MIN(j) FROM t GROUP BY b",
@@ -148,6 +148,9 @@ const AGG_STMTS: [&str; 13] = [
     "SELECT DISTINCT b, COUNT(*) FROM t GROUP BY b, i",
     "SELECT DISTINCT i, MAX(j) FROM t GROUP BY i, b HAVING COUNT(*) > 0",
     "SELECT DISTINCT i, b FROM t GROUP BY i, b, j",
+    "SELECT DISTINCT COUNT(*) > 1 FROM t GROUP BY b",
+    "SELECT DISTINCT MAX(i) / 10, COUNT(*) > 0 FROM t GROUP BY b",
+    "SELECT DISTINCT MAX(i) IS NULL FROM t GROUP BY a HAVING COUNT(*) > 0",
 ];
 
 fn agg_case(tables: &Tables, si: usize, seq: &[u8]) -> (Vec<Failure>, bool) {
